@@ -51,9 +51,11 @@ Qed.
 
 Theorem C11_getter_sound_repaired : C11_getter_holds repaired.
 Proof.
-  intros p Hwf Hg Hfall. unfold getter_return, getter_return_on. rewrite Hg. apply in_or_app. left.
+  intros p Hwf Hg Hfall. unfold getter_return, getter_return_on, all_getters. rewrite Hg. cbn [app flat_map].
+  apply in_or_app. left. unfold getter_diags. cbn [fst snd]. apply in_or_app. left.
+  change (getter_entry_continues (analyze repaired p) (p_pb p)) with (getter_body_continues (analyze repaired p) p).
   assert (Hc : getter_body_continues (analyze repaired p) p = true).
-  { unfold getter_body_continues. destruct (iget (analyze repaired p) (p_pb p)) as [m|] eqn:Em; [|reflexivity].
+  { unfold getter_body_continues, getter_entry_continues. destruct (iget (analyze repaired p) (p_pb p)) as [m|] eqn:Em; [|reflexivity].
     destruct (analyze_ghost repaired p Hwf) as [_ Er].
     pose proof (wf_keys p Hwf) as Hn. apply NoDup_cons_inv in Hn. destruct Hn as [Hpb Hnb].
     destruct (ghost_sound p Hnb) as [_ [HG _]].
@@ -82,7 +84,7 @@ Proof.
   pose proof (wf_keys p Hwf) as Hn. apply NoDup_cons_inv in Hn. destruct Hn as [Hpb Hnb].
   destruct (analyze_ghost repaired p Hwf) as [Est _].
   (* the log entries of the switch and of the case *)
-  destruct (switch_entries repaired) as [_ [HE _]].
+  destruct (switch_entries repaired eq_refl) as [_ [HE _]].
   destruct (HE _ _ Hsub sw cs eq_refl init_st) as [d [fl [Hsw Hcs]]]. destruct (Hcs b Hcase) as [stops Hb].
   (* the logged flag is any_stops on the final map *)
   destruct (case_flags_stable repaired) as [_ [HS _]].
